@@ -108,6 +108,9 @@ func DecodeQuestion(p DNS, index int, buffer []byte) (question Question, off int
 		return Question{}, -1, err
 	}
 
+	if endq+4 > len(p) { // type and class must be present
+		return Question{}, -1, ErrParseFrame
+	}
 	question.Name = name
 	question.Type = binary.BigEndian.Uint16(p[endq : endq+2])    // 2 bytes
 	question.Class = binary.BigEndian.Uint16(p[endq+2 : endq+4]) // 2 bytes
